@@ -214,6 +214,22 @@ def _make_file(inp, path):
         gone = g.create_dataset('gone', data=np.zeros(2))
         sg.attrs['source_000'] = gone.ref
         del g['gone']
+        # a Main dataset WITHOUT an N-dimensional form (a raster scan that was aborted: the last positions are missing)
+        # whose ancillaries are not marked as incomplete: every read-side call that meets it must leave it as it is
+        pg = g.create_group('Partial')
+        a_, b_ = 3, 4
+        npart = a_ * b_ - 2
+        pidx = np.array([[i % a_, i // a_] for i in range(npart)], dtype=np.uint32)
+        pm = pg.create_dataset('part', data=np.arange(npart * 2, dtype=np.float64).reshape(npart, 2))
+        pm.attrs['quantity'] = 'q'
+        pm.attrs['units'] = 'u'
+        for nm_, arr_, labs_ in (('Position_Indices', pidx, ['PX', 'PY']), ('Position_Values', pidx.astype(np.float64), ['PX', 'PY']),
+                                 ('Spectroscopic_Indices', np.array([[0, 1]], dtype=np.uint32), ['S']),
+                                 ('Spectroscopic_Values', np.array([[0.0, 1.0]]), ['S'])):
+            d_ = pg.create_dataset(nm_, data=arr_)
+            d_.attrs['labels'] = np.array(labs_, dtype='S')
+            d_.attrs['units'] = np.array(['u'] * len(labs_), dtype='S')
+            pm.attrs[nm_] = d_.ref
         # a dataset that is a Main dataset in everything but the description of ONE of its ancillaries (labels and /
         # or units missing there, present on its sibling): recognising it must answer "not main" and touch nothing
         og = g.create_group('Older')
